@@ -293,7 +293,8 @@ def handleOffset (cu : Culture) (c : Char) (rest : Text) (st : CSt) : R (CSt × 
     else handleDefault c st
 
 /-- `_LocalDateTimePatternParser.__pattern_character_handlers`: the date and the time tables together, `H` admits
-    24, `T` is a literal; `l` (embedded `ld<…>` / `lt<…>` patterns) is outside the modelled subset (`!dom`) -/
+    24, `T` is a literal.  This plain builder stops with the `!dom` marker at the letter `l` (embedded `ld<…>` /
+    `lt<…>` patterns); `Compile.compileDTText` then runs the builder with embedded patterns (`compileSegmented`) -/
 def handleDateTime (cu : Culture) (c : Char) (rest : Text) (st : CSt) : R (CSt × Nat) :=
   match handleCommon c rest st with
   | some r => r
